@@ -40,6 +40,13 @@ FEATURES.update({
     'long-choice': "start: " + ' | '.join(f"'{c * 9}'" for c in 'abcdefghij') + " ;\n",
     'long-seq': "start: " + ' '.join(f"'{c * 9}'" for c in 'abcdefghij') + " ;\n",
     'eof-in-choices': "start: 'a' $ | 'b' $ | 'c' $ | ('d' | ';' $ | 'e') ;\n",
+    # bodies long enough to be printed over several lines (each element printer has a one-line and a multi-line branch)
+    'long-gather': "start: ','.{" + ' | '.join(f"'{c * 20}'" for c in 'abc') + "}+ $ ;\n",
+    'long-join': "start: ';'%{" + ' | '.join(f"'{c * 20}'" for c in 'abc') + "} $ ;\n",
+    'long-left-join': "start: '+'<{" + ' | '.join(f"'{c * 20}'" for c in 'abc') + "}+ $ ;\n",
+    'long-right-join': "start: '+'>{" + ' | '.join(f"'{c * 20}'" for c in 'abc') + "}+ $ ;\n",
+    'long-closures': "start: {" + ' | '.join(f"'{c * 20}'" for c in 'abc') + "}+ [" + ' | '.join(f"'{c * 20}'" for c in 'def') + "] (" + ' | '.join(f"'{c * 20}'" for c in 'ghi') + ") $ ;\n",
+    'long-named': "start: x+:(" + ' | '.join(f"'{c * 20}'" for c in 'abc') + ") y:{" + ' | '.join(f"'{c * 20}'" for c in 'abc') + "} &(" + ' | '.join(f"'{c * 20}'" for c in 'abcd') + ") /./ ;\n",
     'unicode': "start: 'é' 'こんにちは' ('世界' | 'w' | n) $ ;\n\nn: /\\w/ ;\n",
 })
 
